@@ -529,6 +529,18 @@ class LibMixin:
             dflt = pos[1] if len(pos) > 1 else NONE
             ty = self.join_types(val.ty, dflt.ty)
             return [(st, sv_ite(present, self.coerce(val, ty, st), self.coerce(dflt, ty, st)))]
+        if name == "values" and recv.ty.args[1].kind not in ("unknown", "any"):
+            # the values in iteration order: an uninterpreted sequence determined by the dict (pure function of it)
+            vt = recv.ty.args[1]
+            ts = [self.uf("dict_values_%d" % i, list(recv.ts), smt.seq(srt)) for i, srt in enumerate(flatten(vt))]
+            v = SV(ListT(vt), ts)
+            for t in ts[1:]:
+                st.assume(smt.Eq(smt.Len(t), smt.Len(ts[0])))
+            ks = flatten(recv.ty.args[0])[0]
+            empty = smt.Eq(recv.ts[0], T("((as const %s) false)" % smt.arr(ks, BOOL), smt.arr(ks, BOOL)))
+            if not self.spec_mode:
+                st.assume(smt.Eq(smt.Eq(smt.Len(ts[0]), smt.Int(0)), empty))      # no values iff no keys
+            return [(st, v)]
         if name in ("keys", "values", "items"):
             return [(st, self.opaque("dict_" + name, [recv]))]
         raise Unsupported("dict method %s" % name)
